@@ -206,8 +206,18 @@ macro_rules! atomic_trivial {
 macro_rules! fn_trivial {
     ($ty:ident ; $($name:ident),+) => {
         $(
+            #[cfg(not(feature = "verif"))]
             pub fn $name(&self, v: $ty) -> $ty {
                 AtomicImpl::$name(&self.0, v)
+            }
+            /// Hooked variant (verification builds only), see [`crate::verif`]
+            #[cfg(feature = "verif")]
+            pub fn $name(&self, v: $ty) -> $ty {
+                let (a, s) = (self as *const Self as usize, core::mem::size_of::<$ty>());
+                crate::verif::before(crate::verif::RMW, a, s);
+                let old = AtomicImpl::$name(&self.0, v);
+                crate::verif::after(crate::verif::RMW, a, s, old as u64, v as u64, true);
+                old
             }
         )+
     };
